@@ -12,6 +12,7 @@ from concurrent.futures import ThreadPoolExecutor
 VERIF = os.path.dirname(os.path.dirname(os.path.abspath(__file__)))
 SEEDED = os.path.join(VERIF, "seeded")
 CHECKS = ["C%02d" % i for i in range(1, 21)]
+HEAD = subprocess.run(["git", "-C", VERIF, "rev-parse", "--short", "HEAD"], capture_output=True, text=True).stdout.strip()
 
 
 def pick_patch(d, cwd):
@@ -46,13 +47,19 @@ def slot_worker(slot, ids):
         meta = json.load(open(mp))
         cross = {}
         env = dict(os.environ, VERIF_REPO=wt, VERIF_NO_EVIDENCE="1", VERIF_SKIP_MIRI="1")
-        for c in CHECKS:
+        own_only = bool(os.environ.get("XEVAL_OWN"))     # only the property's own check, recorded under detected_by
+        for c in ([meta["property"]] if own_only else CHECKS):
             t0 = time.time()
             rc, out = sh([os.path.join(VERIF, "check"), c, "--tier", "quick"], cwd=VERIF, env=env, timeout=3600)
             viol = [l for l in out.splitlines() if l.startswith("VIOLATION")]
             syms = [l.strip() for l in out.splitlines() if l.strip().startswith("case=")]
             cross[c] = {"exit": rc, "violations": len(viol), "first": syms[0][:200] if syms else "", "wall_s": round(time.time() - t0, 1)}
-        meta["cross"] = cross
+        if own_only:
+            meta = json.load(open(mp))
+            last = out.strip().splitlines()[-1] if out.strip() else ""
+            meta.setdefault("detected_by", {})["%s/quick" % meta["property"]] = dict(cross[meta["property"]], summary=last[:200], machinery=HEAD)
+        else:
+            meta["cross"] = cross
         json.dump(meta, open(mp, "w"), indent=1)
         print(sid, "fired:", [c for c in CHECKS if cross[c]["violations"]], flush=True)
     sh(["git", "-C", "/repo", "worktree", "remove", "--force", wt])
